@@ -38,7 +38,7 @@ def configs(tier):
     for nann, mu in ((1, 2), (2, 1)):
         for w in ("weights", "noweights"):
             out.append(dict(key=f"custom,annotators={nann},{w},maxu={mu}", mode="custom", nann=nann, weights=(w == "weights"), maxu=mu, cost=20 * 9 ** nann))
-    for sizes, gt in [((1, 1), None), ((2, 1), None), ((1, 1, 1), [0, 1])]:
+    for sizes, gt in [((1, 1), None), ((2, 1), None), ((1, 1, 1), [0, 1]), ((2, 0), None)]:
         out.append(dict(key=f"measured,ref={sizes},gt={gt}", mode="measured", sizes=list(sizes), gt=gt, maxu=1,
                         cost=50 * 9 ** (len(gt) if gt else len(sizes))))
     # long redraw chains: one annotator, one unit, up to 24 consecutive duration draws that are too short
